@@ -71,6 +71,43 @@ pub fn eval_panel() -> Vec<Value> {
     ]
 }
 
+const RING: usize = 4096;
+
+thread_local! {
+    /// the strings this worker thread examined most recently (a violation that depends on earlier parses on the
+    /// same thread is only reproducible together with them)
+    static RECENT: std::cell::RefCell<(Vec<String>, usize)> = std::cell::RefCell::new((Vec::new(), 0));
+}
+
+fn remember(s: &str) {
+    RECENT.with(|r| {
+        let mut r = r.borrow_mut();
+        let i = r.1 % RING;
+        if r.0.len() < RING {
+            r.0.push(s.to_string());
+        } else {
+            r.0[i].clear();
+            r.0[i].push_str(s);
+        }
+        r.1 += 1;
+    })
+}
+
+fn recent_history() -> Vec<String> {
+    RECENT.with(|r| {
+        let r = r.borrow();
+        let n = r.0.len();
+        let mut v = Vec::with_capacity(n);
+        // oldest first; the last entry is the string under examination itself and is dropped
+        for k in 0..n {
+            let idx = if n < RING { k } else { (r.1 + k) % RING };
+            v.push(r.0[idx].clone());
+        }
+        v.pop();
+        v
+    })
+}
+
 impl<'a> Lang<'a> {
     pub fn new(run: &'a Run) -> Lang<'a> {
         let panel = if run.prop == "C08" { eval_panel().into_iter().map(|d| {
@@ -81,12 +118,13 @@ impl<'a> Lang<'a> {
     }
 
     fn case(&self, s: &str, space: &str, model: Verdict, accepted: Option<bool>) -> Value {
-        json!({"kind": "parse", "class": space, "string": s, "model": format!("{:?}", model), "implementation_accepts": accepted})
+        json!({"kind": "parse", "class": space, "string": s, "model": format!("{:?}", model), "implementation_accepts": accepted, "history": recent_history()})
     }
 
     /// `near_miss`: the string comes from a space of near-misses by construction (edits, families)
     pub fn examine(&self, acc: &mut Acc, s: &str, space: &str, near_miss: bool) {
         acc.evals += 1;
+        remember(s);
         let prop = self.run.prop.as_str();
         let parsed = imp::parse(s);
         let accepted = match &parsed {
@@ -97,7 +135,7 @@ impl<'a> Lang<'a> {
         if prop == "C08" {
             match &parsed {
                 Err(p) => {
-                    acc.viol(format!("parse_json_path({:?}) panicked: {}", s, p), json!({"kind": "parse", "class": space, "string": s}));
+                    acc.viol(format!("parse_json_path({:?}) panicked: {}", s, p), json!({"kind": "parse", "class": space, "string": s, "history": recent_history()}));
                     return;
                 }
                 Ok(Err(_)) => return,
@@ -132,7 +170,7 @@ impl<'a> Lang<'a> {
                         if let Some(b) = bad {
                             acc.viol(
                                 format!("the parser accepts {:?} but evaluating it on {} does not succeed: {}", s, doc, b),
-                                json!({"kind": "parse-eval", "class": space, "string": s, "doc": doc}),
+                                json!({"kind": "parse-eval", "class": space, "string": s, "doc": doc, "history": recent_history()}),
                             );
                             return;
                         }
@@ -668,6 +706,17 @@ pub fn replay(case: &Value, run: &Run) -> Acc {
     let mut acc = Acc::new();
     let s = case["string"].as_str().unwrap_or("");
     let l = Lang::new(run);
+    // first alone; if the case does not show alone, after the strings the same worker thread had examined before it
+    let mut alone = Acc::new();
+    l.examine(&mut alone, s, case["class"].as_str().unwrap_or("-"), true);
+    let hist: Vec<String> = case["history"].as_array().map(|a| a.iter().filter_map(|x| x.as_str().map(String::from)).collect()).unwrap_or_default();
+    if alone.viol_count == 0 && !hist.is_empty() {
+        println!("the case does not show on a fresh thread; replaying the {} strings the worker had examined before it", hist.len());
+        let mut scratch = Acc::new();
+        for h in &hist {
+            l.examine(&mut scratch, h, "history", false);
+        }
+    }
     println!("string          : {:?}", s);
     println!("RFC recogniser  : {:?} {:?}", classify(s), rfc_parse(s).err());
     println!("implementation  : {:?}", imp::parse(s).map(|r| r.map(|q| format!("{:?}", q))));
